@@ -89,7 +89,31 @@ func (g *G) switchMessage() (util.Message, string) {
 		m := &of.MultipartReply{Header: of.NewOfp13Header()}
 		m.Header.Type = of.Type_MultiPartReply
 		m.Flags = uint16(g.r.Intn(2))
-		switch g.r.Intn(3) {
+		switch g.r.Intn(5) {
+		case 3: // port / table / queue statistics records (known finding D13)
+			switch g.r.Intn(3) {
+			case 0:
+				m.Type = of.MultipartType_Port
+				p := of.NewPortStats()
+				p.PortNo, p.RxPackets, p.TxPackets, p.RxBytes, p.TxBytes = uint16(g.r.Bits(16)), g.r.Bits(64), g.r.Bits(64), g.r.Bits(64), g.r.Bits(64)
+				m.Body = []util.Message{p}
+			case 1:
+				m.Type = of.MultipartType_Table
+				t := of.NewTableStats()
+				t.TableId, t.Wildcards, t.MaxEntries, t.ActiveCount, t.LookupCount, t.MatchedCount = uint8(g.r.Bits(8)), uint32(g.r.Bits(32)), uint32(g.r.Bits(32)), uint32(g.r.Bits(32)), g.r.Bits(64), g.r.Bits(64)
+				copy(t.Name, []byte("table"))
+				m.Body = []util.Message{t}
+			default:
+				m.Type = of.MultipartType_Queue
+				q := &of.QueueStats{PortNo: uint16(g.r.Bits(16)), QueueId: uint32(g.r.Bits(32)), TxBytes: g.r.Bits(64), TxPackets: g.r.Bits(64), TxErrors: g.r.Bits(64)}
+				m.Body = []util.Message{q}
+			}
+			return m, "multipart-reply/port-table-queue"
+		case 4:
+			m.Type = of.MultipartType_Desc
+			d := of.NewDescStats()
+			m.Body = []util.Message{d}
+			return m, "multipart-reply/desc"
 		case 0:
 			m.Type = of.MultipartType_Desc
 			d := of.NewDescStats()
@@ -163,6 +187,7 @@ func runC05(seed uint64, tier, dir, replay string) error {
 	o := NewOut(dir, "C05", 16, "From LOF Require Import Corr.Dec.", "check05")
 	rng := NewRng(seed)
 	g := NewG(rng)
+	g.exact = true
 	pool := &WorkerPool{}
 	defer pool.Close()
 	n := 900
@@ -186,7 +211,7 @@ func runC05(seed uint64, tier, dir, replay string) error {
 		if same == 0 && r.outcome == 0 {
 			js["fields_before"] = canonString(m)
 		}
-		o.Add(fmt.Sprintf("(Par %s %d %s %d 1 %d)", packBytes(b), r.outcome, packBytes(r.re), r.lenv, same), js, "msg:"+kind, fmt.Sprintf("%d/%d", len(b)/64, r.outcome))
+		o.Add(fmt.Sprintf("(Par %s %d %s %d 1 %d)", packBytes(b), r.outcome, packBytes(r.re), max0(r.lenv), same), js, "msg:"+kind, fmt.Sprintf("%d/%d", len(b)/64, r.outcome))
 	}
 	o.Meta["rule"] = "random values of every kind Parse dispatches on (controller-side: API recipes of hello, echo, features/get-config/barrier requests, set-config, flow-mod with every action/instruction/match-field kind, group-mod, packet-out, port-mod, multipart requests, NXT and bundle messages incl. nesting; switch-side: flow-removed, packet-in with Ethernet payloads, port-status, features reply, error, experimenter error, get-config reply, multipart replies desc/aggregate/flow with instructions, tlv-table reply) encoded, parsed through the entry point, re-encoded; canonical field dump before/after; every nested element kind sits at random positions of mixed lists; distinct by kind x size bucket x outcome"
 	return o.Close()
@@ -210,7 +235,7 @@ func runC07(seed uint64, tier, dir, replay string) error {
 		oc := []string{"message", "error", "panic", "hang", "memory", "neither"}[r.outcome]
 		outcomes[oc]++
 		js := map[string]interface{}{"kind": "parse:" + kind, "input_kind": ik, "input": hexs(in), "outcome": oc, "detail": r.extra}
-		idx := o.Add(fmt.Sprintf("(Par %s %d %s %d 0 0)", packBytes(in), r.outcome, packBytes(nil), r.lenv), js, "parse:"+kind, fmt.Sprintf("%s/%s/%d", ik, oc, len(in)/32))
+		idx := o.Add(fmt.Sprintf("(Par %s %d %s %d 0 0)", packBytes(in), r.outcome, packBytes(nil), max0(r.lenv)), js, "parse:"+kind, fmt.Sprintf("%s/%s/%d", ik, oc, len(in)/32))
 		if r.outcome >= 2 && len(direct) < 40 {
 			direct = append(direct, map[string]interface{}{"what": fmt.Sprintf("Parse: %s on %d bytes of a %s frame (%s)", oc, len(in), kind, r.extra), "index": idx, "case": js})
 		}
@@ -272,4 +297,23 @@ func runC07(seed uint64, tier, dir, replay string) error {
 	o.Meta["outcomes"] = outcomes
 	o.Meta["rule"] = "the parser entry point on: all 256 message-type bytes on 8- and 64-byte frames; inputs of 0..7 bytes; for random valid frames of every kind (see C05) the frame itself, its truncation at every offset (sampled above 160 bytes), 16-bit positions in the first 96 bytes set to 0 / 1 / 0xffff / +-1 / +-8 / a random byte, and structure-blind mutations; each parse runs in a worker subprocess under a 3 s wall-clock limit and a 1 GiB heap limit; distinct by kind x input kind x outcome x size bucket"
 	return o.Close()
+}
+
+func max0(x int) int {
+	if x < 0 {
+		return 0
+	}
+	return x
+}
+
+func init() {
+	props["dbgparse"] = func(seed uint64, tier, dir, replay string) error {
+		b, _ := hexDecode(replay)
+		m, err := of.Parse(b)
+		fmt.Println("err:", err)
+		if m != nil {
+			fmt.Println(canonString(m))
+		}
+		return nil
+	}
 }
